@@ -16,7 +16,7 @@ Theorem C03_scan_exact : forall c pkts, Forall wf_pkt pkts ->
   so_batches (scan_impl c (serialize pkts)) = chunk CAP (map (mk_cdp c) (selected c 0 pkts)) /\
   concat (so_batches (scan_impl c (serialize pkts))) = map (mk_cdp c) (selected c 0 pkts) /\
   so_end (scan_impl c (serialize pkts)) = End_normal.
-Proof. exact (c03_scan_exact_when Gen.Facts.cdp_offset_sampled_after eq_refl). Qed.
+Proof. exact (c03_scan_exact_when Gen.Facts.cdp_offset_sampled_after Gen.Facts.batch_kept_on_invalid_input eq_refl). Qed.
 
 Theorem C03_batch_shape : forall c pkts, Forall wf_pkt pkts ->
   let bs := chunk CAP (map (mk_cdp c) (selected c 0 pkts)) in
@@ -42,15 +42,15 @@ Proof. exact c03_fields. Qed.
    pinned commit, repaired by a fix: commit) does not satisfy the statement *)
 Theorem C03_refuted_when_offset_sampled_before :
   Forall wf_pkt f1_pkts /\
-  concat (so_batches (scan false f1_cfg (serialize f1_pkts))) <> map (mk_cdp f1_cfg) (selected f1_cfg 0 f1_pkts) /\
-  map c_off (concat (so_batches (scan false f1_cfg (serialize f1_pkts)))) = [0] /\
+  concat (so_batches (scan false true f1_cfg (serialize f1_pkts))) <> map (mk_cdp f1_cfg) (selected f1_cfg 0 f1_pkts) /\
+  map c_off (concat (so_batches (scan false true f1_cfg (serialize f1_pkts)))) = [0] /\
   map fst (selected f1_cfg 0 f1_pkts) = [64].
 Proof. exact c03_refuted_when_offset_sampled_before. Qed.
 
 (* the hypotheses are satisfiable and the conclusion says something *)
 Example C03_nonvacuous :
   Forall wf_pkt f1_pkts /\ selected f1_cfg 0 f1_pkts <> [] /\
-  map c_off (concat (so_batches (scan true f1_cfg (serialize f1_pkts)))) = [64].
+  map c_off (concat (so_batches (scan true true f1_cfg (serialize f1_pkts)))) = [64].
 Proof. split; [exact f1_wf|]. split; [vm_compute; discriminate | vm_compute; reflexivity]. Qed.
 
 Print Assumptions C03_scan_exact.
